@@ -118,24 +118,66 @@ func (w *bvWorld) checkTx(pfx string, tx *transaction.Transaction, iss []bvIssVi
 
 func checkBV2(t *Toks) string {
 	sh := bvReadShape(t, false)
-	needProofs := false
-	for _, p := range sh.Parties {
-		if p.Ctor != 0 {
-			needProofs = true
+	w := bvBuildWorld(sh, bvNeedProofs(sh, false), false)
+	r := bvRunV2(w)
+	skip, fs := bvCheckV2Result(w, r, "")
+	if skip != "" {
+		return skip
+	}
+	if s := bvPickFail(fs); s != "" {
+		return s
+	}
+	return "OK"
+}
+
+// history: one generator object for several packets; every packet is checked on its own
+func checkBVH(t *Toks) string {
+	subs := bvSplitHist(t)
+	gen := bvSharedGen(bvHistShapes(subs))
+	var all []c05Fail
+	done := 0
+	for k, st := range subs {
+		sh := bvReadShape(st, false)
+		w := bvBuildWorld(sh, true, false)
+		r := bvRunV2With(w, gen)
+		skip, fs := bvCheckV2Result(w, r, fmt.Sprintf("-step%d", k))
+		if skip == "" {
+			done++
+		}
+		all = append(all, fs...)
+	}
+	if s := bvPickFail(all); s != "" {
+		return s
+	}
+	if done == 0 {
+		return "SKIP blinding-err"
+	}
+	return "OK"
+}
+
+// S on one finished v2 scenario.  skip != "" when blinding did not report success.
+func bvCheckV2Result(w *bvWorld, r *bvV2Result, sfx string) (string, []c05Fail) {
+	sh := w.sh
+	var pre []c05Fail
+	// atomicity: a refused blinder call leaves the published scalars as they were
+	for k, o := range r.Obs {
+		if o.FailRes == "err" && !o.AtomOK {
+			pre = append(pre, c05Fail{"v2.atomicity", fmt.Sprintf("scalars-changed-by-refused-call-p%d%s", k, sfx), false})
 		}
 	}
-	w := bvBuildWorld(sh, needProofs, false)
-	r := bvRunV2(w)
 	if !r.Done {
 		last := "none"
 		if len(r.Obs) > 0 {
 			last = r.Obs[len(r.Obs)-1].Res
 		}
-		return "SKIP blinding-" + last
+		if len(pre) > 0 {
+			return "", pre
+		}
+		return "SKIP blinding-" + last, nil
 	}
 	tx, err := r.Final.UnsignedTx()
 	if err != nil {
-		return fail("v2.unsignedtx", "error")
+		return "", append(pre, c05Fail{"v2.unsignedtx", "error" + sfx, false})
 	}
 	asked := make([]bool, len(sh.Outs))
 	by := make([]int, len(sh.Outs)) // which party generated the proofs of output j
@@ -173,11 +215,6 @@ func checkBV2(t *Toks) string {
 					return "nonlast-input-blinders", false
 				}
 			}
-			for _, a := range r.Obs[k].IssArgs {
-				if !bvAllZero(a.IssuanceValueBlinder) || !bvAllZero(a.IssuanceTokenBlinder) {
-					return "nonlast-input-blinders", false
-				}
-			}
 		}
 		return "other", false
 	}
@@ -192,14 +229,17 @@ func checkBV2(t *Toks) string {
 	}
 	for i, in := range sh.Ins {
 		if in.Conf && cnt[i] != 1 {
-			return "SKIP ownership-not-a-partition"
+			if len(pre) > 0 {
+				return "", pre
+			}
+			return "SKIP ownership-not-a-partition", nil
 		}
 	}
 	fs := w.checkTx("v2", tx, bvV2IssuanceView(r.Final), asked, surjClass, balClass)
-	if s := bvPickFail(fs); s != "" {
-		return s
+	for i := range fs {
+		fs[i].detail += sfx
 	}
-	return "OK"
+	return "", append(pre, fs...)
 }
 
 func bvAllZero(b []byte) bool {
